@@ -637,7 +637,7 @@ def _with_replay(fn):
             # the retained-message housekeeping against a concurrent retained publish (spec/RetainExpiry.tla)
             from families import retain
             retain.add_to(ctx)
-        if ctx.pid in ("C34", "C12", "C23"):
+        if ctx.pid in ("C34", "C12", "C23", "C07"):
             # schedules of the write path (spec/OutPath.tla): write loop and reader of one connection at the schedule points
             # of WriteLoop / WritePacket and inside the connection's Write
             from families import outpath
